@@ -34,7 +34,9 @@ def grids_nd(ctx):
     gs = [((1.0, 1.0), (3, 3), 1), ((1.0, 1.0), (4, 3), 1), ((2.0, 3.0), (5, 5), 1), ((1.0, 1.0, 1.0), (3, 3, 3), 1),
           ((1.0, 1.0, 1.0), (3, 5, 7), 1), ((1.0, 2.0, 0.5), (4, 3, 2), 1), ((1.0, 1.0), (5, 4), 2),
           ((1.0, 1.0), (3, 4), 0), ((12.836,) * 3, (6, 6, 6), 1), ((1.0, 1.0), (2, 2), 1), ((1.0,), (5,), 2),
-          ((1.0, 1.0), (1, 3), 1), ((1.0, 1.0, 1.0), (7, 7, 7), 2)]
+          ((1.0, 1.0), (1, 3), 1), ((1.0, 1.0, 1.0), (7, 7, 7), 2),
+          # cubic cells in a non-cubic box: equal side lengths, unequal counts, side length not a dyadic fraction
+          ((1.0, 2.0), (3, 6), 1), ((2.0, 1.0), (6, 3), 1), ((1.0, 2.0, 3.0), (3, 6, 9), 1)]
     if ctx.thorough:
         gs += [((1.0, 1.0, 1.0), (5, 6, 7), 2), ((3.0, 1.0, 2.0), (7, 2, 5), 1), ((1.0, 1.0), (9, 8), 3),
                ((1.0, 1.0, 1.0), (4, 4, 4), 1), ((1.0, 1.0, 1.0), (2, 3, 4), 0), ((10.0, 10.0), (16, 12), 2),
@@ -157,6 +159,27 @@ def check_nd(case):
         bad("cell-list", "identifiers are not the full product of ranges")
         setting.reset()
         return None, fails
+    # extents per direction: every row of cells along direction d must tile [0, L_d) exactly as in one dimension
+    for d in range(dim):
+        row = {}
+        for c in cl:
+            row.setdefault(c.identifier[d], set()).add((c.cell_min[d], c.cell_max[d]))
+        prev_hi = None
+        for i in range(counts[d]):
+            if len(row[i]) != 1:
+                bad("extent-inconsistent", "cells with index %d in direction %d record different extents %r"
+                    % (i, d, sorted(row[i])))
+                break
+            (lo, hi), = row[i]
+            if i == 0 and lo != 0.0:
+                bad("extent-start", "direction %d: first cell starts at %r" % (d, lo))
+            if prev_hi is not None and math.nextafter(prev_hi, INF) != lo:
+                bad("extent-abut", "direction %d: cell %d ends at %r but cell %d starts at %r (gap or overlap)"
+                    % (d, i - 1, prev_hi, i, lo))
+            prev_hi = hi
+        if prev_hi is not None and prev_hi < math.nextafter(Ls[d], -INF):
+            bad("extent-end", "direction %d: last cell ends at %r, the largest float below L is %r"
+                % (d, prev_hi, math.nextafter(Ls[d], -INF)))
     for c in cl:
         if cl[_ident_index(c.identifier, counts)] is not c:
             bad("flat-index", "cell %r is not stored at its flat index" % (c.identifier,))
